@@ -175,7 +175,8 @@ def build_pointwise(sizes=None):
         tag = f"[{sc},{ec}]"
         live = [o for o in outs if not o.raised]
         if len(live) != 1 or len(outs) != 1:
-            obs.append(Oblig(f"C01/pointwise_cm/single-path{tag}", [], BoolVal(False), "post", ("C01",)))
+            from vf.common import multi_path_meta
+            obs.append(Oblig(f"C01/pointwise_cm/single-path{tag}", [], BoolVal(False), "post", ("C01",), multi_path_meta(outs)))
             continue
         o = live[0]
         r = o.value
